@@ -143,7 +143,7 @@ m = {
     "checks": [chk(p["id"]) for p in props if p["id"] in CHECKS],
     "not_applicable": [{"property_id": p["id"], "reason": "check still being built in this session (model exists or is in progress; will be claimed)"}
                        for p in props if p["id"] not in CHECKS],
-    "notes": "See DESIGN.md (section 11 = as built). known_findings.json lists the open findings (F6, F19, F11, F26) and the 20 'fix:' commits made in /repo (F1-F5, F7-F10, F12-F16, F18, F20-F25); seeded/ holds 120 confirmed seeded changes, all caught.",
+    "notes": "See DESIGN.md (section 11 = as built). known_findings.json lists the open findings (F6, F19, F11, F26) and the 20 'fix:' commits made in /repo (F1-F5, F7-F10, F12-F16, F18, F20-F25); seeded/ holds 140 confirmed seeded changes, all caught.",
 }
 json.dump(m, open(os.path.join(VERIF, "MANIFEST.json"), "w"), indent=1)
 print("checks:", [c["property_id"] for c in m["checks"]])
